@@ -437,7 +437,7 @@ func main() {
 	r := res.New("C11")
 	r.Rule = "2-24 client sockets on 127.0.0.1 (and the same port on 127.0.0.2/.3) send tagged datagrams (client, seq, length, filler; sizes 12..8192) to a real loopback listener; configurations: backlog 1/2/128, accept filter none / first-byte-even, batch reads off/2/8, paced (window <= 8 datagrams or 4 KiB outstanding per client) or burst, connections closed after a few reads and re-created, an overflow phase with more first datagrams than the backlog while nobody accepts; oracle per connection: remote address == tagged sender, strictly increasing seq (across successive connections of a remote too), byte-identical payload, gap-free and complete in paced mode, no second open connection per remote, no connection for filtered remotes, at most backlog connections queued, first read = first admitted datagram; distinct = (case shape) cells"
 	r.Assumptions = []string{"Linux loopback UDP does not reorder between one socket pair and does not drop while less than 100 KiB is outstanding in total", "listener idleness is read from the read loop's goroutine state (IO wait, two samples)"}
-	n := 25
+	n := 40
 	if *tier == "thorough" {
 		n = 300
 	}
